@@ -288,6 +288,8 @@ def plan(pid, tier, seed):
                     cfg["mr"] = rng.choice([2, 3, 4])
                 out.append(dict(mode=rng.choice(["free", "jitter"]), tag="purge",
                                 steps=gen.purge_history(rng, 30 if q else 80, cfg, faults=rng.choice([0, 0, 0, 1, 2]))))
+            for k in range(30 if q else 300):
+                out.append(dict(mode="free", tag="truncate-purge", steps=gen.truncate_purge_scenario(rng)))
             return out
         P["gen"].append(g)
         P["need"] = dict(unlinks=300)
